@@ -208,6 +208,8 @@ fn trusted_json(prog: &[u8], refs: &[Vec<u8>], flags: ConsensusFlags, consts: &C
 }
 
 pub struct GenInput {
+    /// Some(k): the program is a reference-selecting generator (Generator.tla RefSelProg) picking reference k
+    pub refsel: Option<usize>,
     pub prog: Vec<u8>,
     pub prog_tree: Option<Sx>,
     pub ser: String,
@@ -228,6 +230,10 @@ pub fn gen_event(inp: &GenInput, consts: &Consts, with_trusted: bool) -> Value {
     let mut ev = json!({"k": "gen", "src": inp.src, "prog_len": inp.prog.len(), "ser": inp.ser, "nrefs": inp.refs.len(), "flags": inp.flags,
         "max": bignat_u64(inp.max), "cpb": bignat_u64(consts.c.cost_per_byte), "native": native, "legacy": legacy, "consts": consts.to_json(),
         "prefix": jbytes(&inp.prog[..inp.prog.len().min(2)])});
+    ev["refs"] = Value::Array(inp.refs.iter().map(|r| jbytes(r)).collect());
+    if let Some(k) = inp.refsel {
+        ev["refsel"] = json!(k);
+    }
     let tree = match &inp.prog_tree {
         Some(t) => Some(t.clone()),
         None => {
@@ -415,18 +421,20 @@ pub fn record(args: &Args) {
     // cases from MC_GenShape: {out: tree, nrefs, flags, max}
     if let Some(cases) = args.get("cases") {
         for c in read_ndjson(cases) {
-            let outp = Sx::from_json(&c["out"]);
-            let prog_tree = Sx::cons(Sx::A(vec![1]), outp);
+            // reference-selecting generators come as a whole program, everything else as an output to be quoted
+            let refsel = c.get("refsel").and_then(|k| k.as_u64()).map(|k| k as usize);
+            let prog_tree = if c.get("prog").is_some() { Sx::from_json(&c["prog"]) } else { Sx::cons(Sx::A(vec![1]), Sx::from_json(&c["out"])) };
             let flags = names_from_json(&c["flags"]);
             let nrefs = c["nrefs"].as_u64().unwrap_or(0) as usize;
-            let refs: Vec<Vec<u8>> = (0..nrefs).map(|i| vec![0x80u8 + i as u8 * 0]).collect();
+            // distinct references (32 bytes, so that a selected one is a well-formed parent id)
+            let refs: Vec<Vec<u8>> = (0..nrefs).map(|_| rand_bytes(&mut r, 32)).collect();
             let max = if c.get("max").is_some() { bignat_to_u128(&c["max"]) as u64 } else { BLOCK_MAX };
             for ser in ["plain", "backrefs"] {
                 let prog = if ser == "plain" { ser_plain(&prog_tree) } else { ser_backrefs(&prog_tree) };
                 if ser == "backrefs" && prog == ser_plain(&prog_tree) {
                     continue;
                 }
-                let inp = GenInput { prog, prog_tree: Some(prog_tree.clone()), ser: ser.to_string(), refs: refs.clone(), flags: flags.clone(), max, src: "mc".to_string() };
+                let inp = GenInput { refsel, prog, prog_tree: Some(prog_tree.clone()), ser: ser.to_string(), refs: refs.clone(), flags: flags.clone(), max, src: "mc".to_string() };
                 out.emit(&gen_event(&inp, &consts, trusted));
             }
         }
@@ -435,18 +443,36 @@ pub fn record(args: &Args) {
     for _ in 0..args.u64("n", 0) {
         let flags = random_gen_flags(&mut r);
         let outp = random_output(&mut r, &consts, &pool, &flags);
-        let prog_tree = Sx::cons(Sx::A(vec![1]), outp);
+        // one in four generators gets 1..3 distinct block references; when its output starts with a
+        // well-formed spend, the first parent is then taken from a reference (RefSelProg of Generator.tla)
+        let nrefs = if r.random_range(0..4) == 0 { r.random_range(1..4usize) } else { 0 };
+        let refs: Vec<Vec<u8>> = (0..nrefs).map(|_| if r.random_range(0..8) == 0 { rand_bytes(&mut r, 31) } else { rand_bytes(&mut r, 32) }).collect();
+        let mut refsel = None;
+        let mut prog_tree = Sx::cons(Sx::A(vec![1]), outp.clone());
+        if nrefs > 0 {
+            if let Sx::P(spends, outrest) = &outp {
+                if let Sx::P(s1, others) = &**spends {
+                    if let Sx::P(_parent, rest) = &**s1 {
+                        let k = r.random_range(0..nrefs + 1).min(3);
+                        let path: u8 = [9, 21, 45, 93][k];
+                        let q = |x: &Sx| Sx::cons(Sx::A(vec![1]), x.clone());
+                        let c = |x: Sx, y: Sx| Sx::list(vec![Sx::A(vec![4]), x, y]);
+                        prog_tree = c(c(c(Sx::A(vec![path]), q(rest)), q(others)), q(outrest));
+                        refsel = Some(k);
+                    }
+                }
+            }
+        }
         let ser = if r.random::<bool>() { "plain" } else { "backrefs" };
         let prog = if ser == "plain" { ser_plain(&prog_tree) } else { ser_backrefs(&prog_tree) };
-        let refs: Vec<Vec<u8>> = if r.random_range(0..6) == 0 { vec![vec![0x80]] } else { vec![] };
-        let inp = GenInput { prog, prog_tree: Some(prog_tree), ser: ser.to_string(), refs, flags: flags.clone(), max: BLOCK_MAX, src: "random".to_string() };
+        let inp = GenInput { refsel, prog, prog_tree: Some(prog_tree), ser: ser.to_string(), refs, flags: flags.clone(), max: BLOCK_MAX, src: "random".to_string() };
         let ev = gen_event(&inp, &consts, trusted);
         // cost frontier (C04): re-run accepted generators at total and total - 1
         if ev["native"]["ok"].as_bool() == Some(true) && r.random_range(0..3) == 0 {
             let total = bignat_to_u128(&ev["native"]["r"]["cost"]) as u64;
             out.emit(&ev);
             for (m, fr) in [(total, false), (total.saturating_sub(1), true)] {
-                let i2 = GenInput { max: m, src: "frontier".to_string(), prog: inp.prog.clone(), prog_tree: inp.prog_tree.clone(), ser: inp.ser.clone(), refs: inp.refs.clone(), flags: inp.flags.clone() };
+                let i2 = GenInput { refsel: inp.refsel, max: m, src: "frontier".to_string(), prog: inp.prog.clone(), prog_tree: inp.prog_tree.clone(), ser: inp.ser.clone(), refs: inp.refs.clone(), flags: inp.flags.clone() };
                 let mut e2 = gen_event(&i2, &consts, false);
                 if fr {
                     e2["frontier"] = json!(true);
@@ -500,7 +526,7 @@ pub fn record(args: &Args) {
             for fl in [vec!["DONT_VALIDATE_SIGNATURE"], vec!["DONT_VALIDATE_SIGNATURE", "NO_UNKNOWN_CONDS", "STRICT_ARGS_COUNT", "LIMIT_SPENDS", "CLVM_MEMPOOL_MODE"],
                        vec!["DONT_VALIDATE_SIGNATURE", "COST_CONDITIONS"]] {
                 let flags: Vec<String> = fl.iter().map(|s| (*s).to_string()).collect();
-                let inp = GenInput { prog: prog.clone(), prog_tree: None, ser: "file".to_string(), refs: refs.clone(), flags, max: BLOCK_MAX, src: name.clone() };
+                let inp = GenInput { refsel: None, prog: prog.clone(), prog_tree: None, ser: "file".to_string(), refs: refs.clone(), flags, max: BLOCK_MAX, src: name.clone() };
                 let t0 = std::time::Instant::now();
                 out.emit(&gen_event(&inp, &consts, trusted));
                 // expensive programs (procedural generators producing millions of conditions) get one flag set only
